@@ -107,8 +107,9 @@ def run(ctx):
         from . import solver_deep as sd
         res = sd.its_results(repo, ctx.tier)
         ctx.analysed["api_sequences"] = len(res)
-        for seq, kind, problems in res:
-            name = " ; ".join(sd.NAMES[x] for x in seq)
+        for r_ in res:
+            seq, kind, problems = r_[:3]
+            name = " ; ".join(sd.NAMES[x] for x in seq) + ((" [solver options: %s]" % r_[3]) if len(r_) > 3 else "")
             if kind == "ok":
                 rs.ok({"sequence": name})
             elif kind == "unsupported":
